@@ -407,14 +407,24 @@ impl Property for C18 {
         if parent_worlds().is_err() {
             return vec![];
         }
-        let status = std::process::Command::new("python3-vt")
+        // the threads of one interpreter can block each other for good (a lock held across the release of the GIL):
+        // the driver gets 5 (thorough 30) minutes, its examples need seconds
+        let mut pycmd = std::process::Command::new("python3-vt");
+        pycmd
             .arg(root.join("py").join("c18_check.py"))
             .arg("--lib").arg(root.join("work").join("pylib"))
             .arg("--worlds").arg(base_dir())
             .arg("--seed").arg(seed.to_string())
             .arg("--examples").arg(tier.pick(25, 400).to_string())
-            .arg("--out").arg(&result)
-            .status();
+            .arg("--out").arg(&result);
+        let status = match status_with_timeout(&mut pycmd, tier.pick(300, 1800)) {
+            Ok(Some(st)) => Ok(st),
+            Ok(None) => {
+                stats.record("python-threads-deadlock", false, Some("python:threaded example"));
+                return vec![(json!({"python": "threads"}), Failure { clause: "python:threads-never-finish".into(), detail: "the interpreter running threads that share one Dictionary did not finish within the time limit (its examples take seconds): the threads block each other".into() })];
+            }
+            Err(e) => Err(e),
+        };
         let res: Option<Value> = std::fs::read_to_string(&result).ok().and_then(|t| serde_json::from_str(&t).ok());
         let mut fails = Vec::new();
         match (status, res) {
